@@ -157,6 +157,26 @@ where
     preceded(many0(alt((comment, into_inner(multispace1)))), inner)
 }
 
+/// Parses a sequence of reserved words such as `BIT STRING` or `WITH COMPONENTS`.
+/// The words are separate lexical items (ITU-T X.680 clause 12.38), so any whitespace
+/// and comments may stand between them. Yields the canonical spelling.
+pub fn keywords<'a>(
+    words: &'static str,
+) -> impl Parser<Input<'a>, Output = &'static str, Error = ErrorTree<'a>> {
+    move |input: Input<'a>| {
+        let mut remaining = input;
+        for (i, word) in words.split(' ').enumerate() {
+            if i > 0 {
+                remaining = many1(alt((comment, into_inner(multispace1))))
+                    .parse(remaining)?
+                    .0;
+            }
+            remaining = tag(word).parse(remaining)?.0;
+        }
+        Ok((remaining, words))
+    }
+}
+
 pub fn in_parentheses<'a, F>(
     inner: F,
 ) -> impl Parser<Input<'a>, Output = F::Output, Error = F::Error>
